@@ -39,7 +39,7 @@ def shards(tier, seed, scale):
 
 # ------------------------------------------------------------------ programs
 
-BACKEND_OPS = ["sum", "min", "add", "multiply", "dot", "id", "sum_t", "get_at", "softmax"]
+BACKEND_OPS = ["sum", "min", "add", "multiply", "dot", "id", "sum_t", "get_at", "softmax", "dot2"]
 OPS = BACKEND_OPS + ["adapted", "adapted_t", "factory", "solve_axes", "matches", "adapt_new"]
 
 
@@ -54,6 +54,8 @@ def fixed_programs():
         {"name": "cold-with-vs-compile", "cold": True, "threads": [[("enter", E), ("call", "sum", None), ("exit", E)], [("call", "sum", None), ("get", None)]]},
         {"name": "with-vs-register", "cold": False, "threads": [[("enter", E), ("get", None), ("exit", E)], [("register", "syn3")], [("call", "multiply", None)]]},
         {"name": "byname-vs-with", "cold": False, "threads": [[("enter", "numpy.numpylike"), ("call", "dot", None), ("exit", "numpy.numpylike")], [("call", "sum", E), ("get", "numpy")]]},
+        {"name": "cold-einsum-two-descriptions", "cold": True, "threads": [[("call", "dot", None)], [("call", "dot2", None)], [("call", "multiply", "numpy.einsum")]]},
+        {"name": "cold-einsum-vs-einsum-backend", "cold": True, "threads": [[("call", "dot2", None), ("call", "sum", "numpy.einsum")], [("call", "id", "numpy.einsum"), ("call", "dot", "numpy.einsum")]]},
         {"name": "cold-two-signatures", "cold": True, "threads": [[("call", "sum", None), ("call", "sum_t", None)], [("call", "sum_t", None), ("call", "sum", None)]]},
         {"name": "cold-adapter-two-signatures", "cold": True, "threads": [[("call", "adapted", None)], [("call", "adapted_t", None)], [("call", "factory", None)]]},
         {"name": "cold-factory-vs-solve", "cold": True, "threads": [[("call", "factory", None), ("call", "solve_axes", None)], [("call", "factory", None), ("call", "matches", None)]]},
@@ -109,6 +111,7 @@ class World:
         self.y = np.arange(3.0)
         self.xt = np.arange(6.0).reshape(3, 2) * 2 + 1
         self.idx = np.array([1, 0, 1])
+        self.y2 = np.arange(12.0).reshape(3, 4) - 5
         self.adapter = einx.numpy.adapt_numpylike_reduce(lambda t, axis: np.sum(t * t, axis=axis))
         # warm everything that a program may touch so that 'warm' really is warm
         for b in (None, "numpy", "numpy.einsum", "numpy.numpylike"):
@@ -141,6 +144,8 @@ class World:
             return einx.sum("a [b]", self.xt, **kw)
         if op == "get_at":
             return einx.get_at("a [b], p -> a p", x, self.idx, **kw)
+        if op == "dot2":  # shares axis names with the other calls, in other positions (einsum letter assignment differs)
+            return einx.dot("b [a], [a] c -> c b", x, self.y2, **kw)
         if op == "softmax":
             return einx.softmax("a [b]", x, **kw)
         np = self.np
@@ -160,7 +165,7 @@ class World:
 
     def caches(self):
         out = []
-        for op in (self.einx.sum, self.einx.min, self.einx.add, self.einx.multiply, self.einx.dot, self.einx.id, self.einx.get_at, self.einx.softmax, self.adapter):
+        for op in (self.einx.sum, self.einx.min, self.einx.add, self.einx.multiply, self.einx.dot, self.einx.id, self.einx.get_at, self.einx.softmax, self.adapter):  # (dot2 shares einx.dot's cache)
             d = dict(zip(op.__code__.co_freevars, [c.cell_contents for c in op.__closure__]))
             out.append(d["construct_graph_with_cache"].__wrapped__)
         return out
